@@ -541,6 +541,29 @@ def shard_main(ck, shard, nshards):
   ck.extra['worst'] = dict(worst)
 
 
+def replay(ck, body):
+  """./verif C44 --replay <violation.json>"""
+  from checks.c43 import _gm_from_json
+  mujoco, mjx, jax, jp = mjxload.load()
+  lib = ck.lib('rel')
+  case = body['case']['case']
+  gm = _gm_from_json(case[0])
+  worst = collections.defaultdict(float)
+  try:
+    if str(body['case'].get('check', '')).startswith('jit-vmap'):
+      check_transparency(ck, lib, gm, [int(x) for x in case[1]], worst, eager_samples=1)
+    else:
+      seeds, sd = [int(x) for x in case[1]], int(case[2])
+      c = gx.build(lib, gm.xml)
+      sts = [gx.make_state(lib, c.tm, x) for x in seeds]
+      check_make_data(ck, c, gm)
+      for k, s in enumerate(sts):
+        check_roundtrip(ck, lib, c, gm, s, steps=[0, 15, 60][k % 3])
+      check_state_api(ck, lib, c, gm, sts[0], sts[1], np.random.RandomState(sd), nsig=160)
+  except Violation as e:
+    ck.violation('Violation: %s' % e, dict(check='replay', case=case), bucket=getattr(e, 'bucket', None))
+
+
 def main(ck):
   from vf import mjxshard
   ck.rule = RULE
